@@ -1,11 +1,213 @@
 package prio
 
-// Bounded exhaustive generators (deterministic part of the thorough tier).
+import (
+	"os"
+	"strconv"
+)
 
-func exhaustiveC01(thorough bool, each func(s Script, label string) bool) {}
+// Bounded exhaustive generators: the deterministic part of the checks. In the thorough
+// tier the enumeration is partitioned over the shards (VERIF_SHARD of VERIF_SHARDS).
 
-func exhaustiveC05(thorough bool, each func(s Script, label string) bool) {}
+func shard() (int, int) {
+	n, _ := strconv.Atoi(os.Getenv("VERIF_SHARDS"))
+	i, _ := strconv.Atoi(os.Getenv("VERIF_SHARD"))
+	if n <= 0 {
+		return 0, 1
+	}
+	return i, n
+}
 
-func enumerateFaults(thorough bool, each func(s Script, label string) bool) {}
+// sequences calls f with every sequence over the alphabet of exactly the given length.
+func sequences(alphabet []Op, length int, f func([]Op) bool) bool {
+	idx := make([]int, length)
+	for {
+		seq := make([]Op, length)
+		for i, k := range idx {
+			seq[i] = alphabet[k]
+		}
+		if !f(seq) {
+			return false
+		}
+		i := length - 1
+		for ; i >= 0; i-- {
+			idx[i]++
+			if idx[i] < len(alphabet) {
+				break
+			}
+			idx[i] = 0
+		}
+		if i < 0 {
+			return true
+		}
+	}
+}
 
-func enumerateStops(thorough bool, each func(s Script, label string) bool) {}
+// exhaustiveC01 : every op sequence of a fixed depth over {drain, write H items to p,
+// release the oldest in-flight item of p} for priorities {3,2,1}.
+func exhaustiveC01(thorough bool, each func(s Script, label string) bool) {
+	type cfg struct {
+		ver int
+		div string
+		h   uint
+	}
+	cfgs := []cfg{{2, "fair", 3}, {2, "rate", 6}, {1, "rate", 6}}
+	depth := 3
+	if thorough {
+		depth = 5
+		cfgs = nil
+		for _, v := range []int{1, 2} {
+			for _, d := range []string{"fair", "rate"} {
+				for _, h := range []uint{3, 4, 6} {
+					if d == "rate" && h < 6 {
+						continue // Rate gives priority 1 of {3,2,1} nothing below 6
+					}
+					cfgs = append(cfgs, cfg{v, d, h})
+				}
+			}
+		}
+	}
+	alphabet := []Op{{K: "D"}}
+	for _, p := range []uint{3, 2, 1} {
+		alphabet = append(alphabet, Op{K: "W", P: p, N: 2}, Op{K: "FP", P: p})
+	}
+	me, n := shard()
+	count := 0
+	for _, c := range cfgs {
+		ok := sequences(alphabet, depth, func(seq []Op) bool {
+			count++
+			if count%n != me {
+				return true
+			}
+			s := Script{Ver: c.ver, Div: c.div, H: c.h, OutCap: 1, FbCap: 1, Epilogue: "normal",
+				Ins: []In{{P: 3, Cap: 2, Prefill: 2}, {P: 2, Cap: 0, Prefill: 1}, {P: 1, Cap: 2, Prefill: 0}},
+				Ops: append([]Op{{K: "D"}}, seq...)}
+			return each(s, "exhaustive")
+		})
+		if !ok {
+			return
+		}
+	}
+}
+
+// exhaustiveC05 : every release order of a fixed depth under saturation.
+func exhaustiveC05(thorough bool, each func(s Script, label string) bool) {
+	type cfg struct {
+		ver int
+		div string
+		h   uint
+	}
+	cfgs := []cfg{{2, "rate", 6}, {1, "fair", 4}}
+	depth := 3
+	if thorough {
+		depth = 5
+		cfgs = nil
+		for _, v := range []int{1, 2} {
+			for _, d := range []string{"fair", "rate", "square"} {
+				for _, h := range []uint{3, 5, 6, 7} {
+					cfgs = append(cfgs, cfg{v, d, h})
+				}
+			}
+		}
+	}
+	alphabet := []Op{{K: "D"}, {K: "FM", Picks: []int{0, 0, 0, 0, 0, 0, 0, 0}}, {K: "FM", Picks: []int{0, 1}}}
+	for _, p := range []uint{3, 2, 1} {
+		alphabet = append(alphabet, Op{K: "FP", P: p})
+	}
+	me, n := shard()
+	count := 0
+	for _, c := range cfgs {
+		base := Script{Ver: c.ver, Div: c.div, H: c.h, OutCap: 1, FbCap: 1, Epilogue: "normal"}
+		for _, p := range []uint{3, 2, 1} {
+			base.Ins = append(base.Ins, In{P: p})
+		}
+		if sh := Share(base); sh[1] == 0 || sh[2] == 0 || sh[3] == 0 {
+			continue
+		}
+		ok := sequences(alphabet, depth, func(seq []Op) bool {
+			count++
+			if count%n != me {
+				return true
+			}
+			s := base
+			s.Ins = nil
+			k := int(c.h) + 8*depth + 2
+			for _, p := range []uint{3, 2, 1} {
+				s.Ins = append(s.Ins, In{P: p, Cap: k, Prefill: k})
+			}
+			s.Ops = append([]Op{{K: "D"}}, seq...)
+			s.Ops = append(s.Ops, Op{K: "D"})
+			return each(s, "exhaustive")
+		})
+		if !ok {
+			return
+		}
+	}
+}
+
+func baseScripts(vers []int, simple []bool) []Script {
+	var out []Script
+	traffic := []Op{
+		{K: "D"}, {K: "FP", P: 3}, {K: "D"}, {K: "W", P: 1, N: 3}, {K: "FM", Picks: []int{0, 1, 2}}, {K: "D"},
+		{K: "W", P: 2, N: 4}, {K: "T", N: 7}, {K: "R", N: 2}, {K: "F", Picks: []int{1, 0}}, {K: "D"}, {K: "C", P: 3},
+		{K: "FM", Picks: []int{0, 1, 2, 3, 4, 5}}, {K: "D"}, {K: "W", P: 1, N: 2}, {K: "D"},
+	}
+	for _, v := range vers {
+		for _, sm := range simple {
+			for _, div := range []string{"fair", "rate"} {
+				for _, caps := range [][3]int{{4, 4, 4}, {0, 2, 0}} {
+					out = append(out, Script{Ver: v, Simple: sm, Div: div, H: 6, OutCap: 1, FbCap: 1, Epilogue: "normal",
+						Ins: []In{{P: 3, Cap: caps[0], Prefill: 5}, {P: 2, Cap: caps[1], Prefill: 3}, {P: 1, Cap: caps[2], Prefill: 1}},
+						Ops: append([]Op(nil), traffic...)})
+				}
+			}
+		}
+	}
+	return out
+}
+
+// enumerateFaults : for a set of base scripts, a fault at every eligible divider call.
+func enumerateFaults(thorough bool, each func(s Script, label string) bool) {
+	me, n := shard()
+	count := 0
+	limit := 10
+	if thorough {
+		limit = 400
+	}
+	for _, b := range baseScripts([]int{1, 2}, []bool{false}) {
+		for k := 1; k <= limit; k++ {
+			for _, over := range []bool{true, false} {
+				count++
+				if count%n != me {
+					continue
+				}
+				s := b
+				s.Fault = &Fault{Call: k, Over: over, Delta: 1}
+				if !each(s, "fault-enumeration") {
+					return
+				}
+			}
+		}
+	}
+}
+
+// enumerateStops : Stop / cancel at every position of the v1 base scripts.
+func enumerateStops(thorough bool, each func(s Script, label string) bool) {
+	me, n := shard()
+	count := 0
+	for _, b := range baseScripts([]int{1}, []bool{false, true}) {
+		for pos := 0; pos <= len(b.Ops); pos++ {
+			for _, kind := range []string{"S", "K"} {
+				count++
+				if count%n != me {
+					continue
+				}
+				s := b
+				s.Epilogue = "none"
+				s.Ops = append(append([]Op(nil), b.Ops[:pos]...), Op{K: kind})
+				if !each(s, "stop-enumeration") {
+					return
+				}
+			}
+		}
+	}
+}
